@@ -160,7 +160,7 @@ pub fn judge_program(rep: &mut Report, runner: &mut Runner, family: &str, e: &Ex
 			};
 			if !same {
 				rep.violation(Violation {
-					class: format!("{family} configurations disagree: snippet vs {} [{} vs {}]", EMBEDDINGS[i], kind(&outs[0]), kind(o)),
+					class: format!("{family} configurations disagree: snippet vs {} [{} vs {}]{}", EMBEDDINGS[i], kind(&outs[0]), kind(o), crate::judge::trigger(e).map(|t| format!(" [{t}]")).unwrap_or_default()),
 					witness: text.clone(),
 					detail: format!("snippet: {}\n{}: {}", outs[0].short(), EMBEDDINGS[i], o.short()),
 					cost,
